@@ -9,6 +9,8 @@ into `Generated/TreeKinds.lean`).
 import PsdVerif.Model.TreeParse
 import PsdVerif.Lemmas.TreeParse
 import PsdVerif.Generated.TreeKinds
+import PsdVerif.Model.Reopen
+import PsdVerif.Generated.Reopen
 
 namespace PsdVerif.C08
 open PsdVerif PsdVerif.Tree
@@ -234,6 +236,103 @@ theorem kind_follows_blocks (has : String → Bool) (pdi : Bool) :
   cases Spec.typeKeys.any has <;> cases Spec.smartObjectKeys.any has <;>
     cases Tree.firstOf has Spec.fillPriority <;> cases Tree.firstOf has Spec.adjustmentPriority <;>
     cases pdi <;> cases Spec.vectorKeys.any has <;> simp
+
+/-! ### The kind is a function of the record alone
+
+`kind_follows_blocks` is about `kindOf`, which takes the block keys of ONE record and ONE flag. That this is all the
+source reads, and that it keeps nothing between records or documents, is read from the AST on every run: the dispatch
+closure (the record loop of `_init` and every function of psd_image.py it calls) reads the flag
+`pixel_data_irrelevant` only, follows no helper, and touches no module-level / class-level mutable container, no
+`global`, no memoising decorator. (The search evaluates the clause on sequences: records with identical blocks and
+different flags in one document and in documents opened one after another, both orders.) -/
+theorem dispatch_reads_tied :
+    Generated.TreeKinds.dispatchFlags = ["pixel_data_irrelevant"] ∧
+    Generated.TreeKinds.dispatchState = [] ∧
+    Generated.TreeKinds.dispatchFunctions = [] ∧
+    (∀ t ∈ Generated.TreeKinds.dispatchTags,
+        t ∈ Generated.TreeKinds.dividerKeys ++ Generated.TreeKinds.artboardKeys ++ Spec.typeKeys ++
+          Spec.smartObjectKeys ++ Spec.vectorKeys) := by decide
+
+/-- With a stateless dispatch the kinds of a sequence of records are the kinds of its members, whatever the
+    order and whatever was opened before: stated on the model, where it is the definition. -/
+theorem kinds_of_sequence (rs : List ((String → Bool) × Bool)) :
+    rs.map (fun r => kindOf Generated.TreeKinds.tables r.1 r.2) = rs.map (fun r => Spec.kind r.1 r.2) := by
+  simp [kind_follows_blocks]
+
+/-! ### Where the records are: `layer_info`, `Lr16`, `Lr32`
+
+`PSDImage._init` iterates `PSD._iter_layers()`, i.e. the records of `PSD._get_layer_info()`
+(`Reopen.storedPayloads`, the model shared with C09). The property speaks about "the file's records": when one of
+the three places holds them and the others are absent or hold none, these must be the records of the tree —
+for every bit depth and version, since the accessor reads neither (tied below). -/
+
+open PsdVerif.Reopen in
+/-- the other two places -/
+def others (m : Reopen.Sections) : Reopen.Slot → List (Option (List Nat))
+  | .layerInfo => [m.lr16, m.lr32]
+  | .lr16 => [m.layerInfo, m.lr32]
+  | .lr32 => [m.layerInfo, m.lr16]
+
+/-- the records `ps` are in place `k`; every other place is absent or holds no records -/
+def HoldsOnly (m : Reopen.Sections) (k : Reopen.Slot) (ps : List Nat) : Prop :=
+  m.get k = some ps ∧ ∀ o ∈ others m k, o = none ∨ o = some []
+
+instance (m : Reopen.Sections) (k : Reopen.Slot) (ps : List Nat) : Decidable (HoldsOnly m k ps) := by
+  unfold HoldsOnly; exact inferInstance
+
+/-- no block the reader prefers to `k` is present -/
+def Unshadowed (m : Reopen.Sections) : Reopen.Slot → Prop
+  | .lr16 => True
+  | .lr32 => m.lr16 = none
+  | .layerInfo => m.lr16 = none ∧ m.lr32 = none
+
+/-- what the model of `_get_layer_info` / `_iter_layers` / the loop head of `_init` assumes is what the source says
+    now; in particular the accessor reads the two sections only — not the header, so neither depth nor version -/
+theorem records_location_tied :
+    Generated.Reopen.readerKeys = ["LAYER_16", "LAYER_32"] ∧
+    Generated.Reopen.readerFallback = "self.layer_and_mask_information.layer_info" ∧
+    Generated.Reopen.readerReads = ["self.layer_and_mask_information.layer_info",
+      "self.layer_and_mask_information.tagged_blocks"] ∧
+    Generated.Reopen.iterSource = "self._get_layer_info()" ∧
+    Generated.TreeKinds.loopSource = "self._record._iter_layers()" := by decide
+
+/-- **Exactly when the records are found.** With the records in one place and nothing in the others, the reader
+    yields them iff there are none or no preferred block is present. -/
+theorem records_found_iff (m : Reopen.Sections) (k : Reopen.Slot) (ps : List Nat) (h : HoldsOnly m k ps) :
+    Reopen.storedPayloads m = ps ↔ (ps = [] ∨ Unshadowed m k) := by
+  obtain ⟨li, a, b⟩ := m
+  obtain ⟨hk, ho⟩ := h
+  cases k <;> simp only [Reopen.Sections.get] at hk <;> subst hk <;>
+    simp only [others, List.mem_cons, List.not_mem_nil, or_false, forall_eq_or_imp, forall_eq] at ho <;>
+    obtain ⟨h1, h2⟩ := ho <;>
+    rcases h1 with h1 | h1 <;> rcases h2 with h2 | h2 <;> subst h1 <;> subst h2 <;>
+    simp [Reopen.storedPayloads, Reopen.readerSlot, Reopen.Sections.get, Unshadowed, eq_comm]
+
+/-- the usable direction: records in `Lr16` are always found; in `Lr32` unless an `Lr16` block is present; in the
+    ordinary layer info unless an `Lr16` / `Lr32` block is present -/
+theorem records_found_partial (m : Reopen.Sections) (k : Reopen.Slot) (ps : List Nat) (h : HoldsOnly m k ps)
+    (hu : Unshadowed m k) : Reopen.storedPayloads m = ps :=
+  (records_found_iff m k ps h).mpr (.inr hu)
+
+/-- … and then opening is the stack algorithm on exactly these records: if they are the flattening of a tree,
+    that tree is what opens (with `parse_flatten`: nothing lost, duplicated, reordered) -/
+theorem open_lists_the_stored_records (E : Reopen.RecEnv) (m : Reopen.Sections) (k : Reopen.Slot) (ps : List Nat)
+    (f : Forest) (h : HoldsOnly m k ps) (hu : Unshadowed m k) (hf : ps.map (Reopen.reread E) = flatten f) :
+    Reopen.openDoc E m = .ok f := by
+  simp only [Reopen.openDoc, records_found_partial m k ps h hu, hf, parse_flatten]
+
+/-- The full statement (without `Unshadowed`) is false: a block `Lr16` that holds no records hides the records of
+    the ordinary layer info, and the records of `Lr32` (known finding, replayed on the real code by the harness). -/
+theorem empty_block_shadows :
+    (HoldsOnly ⟨some [1, 2], some [], none⟩ .layerInfo [1, 2] ∧ Reopen.storedPayloads ⟨some [1, 2], some [], none⟩ = []) ∧
+    (HoldsOnly ⟨some [1, 2], none, some []⟩ .layerInfo [1, 2] ∧ Reopen.storedPayloads ⟨some [1, 2], none, some []⟩ = []) ∧
+    (HoldsOnly ⟨some [], some [], some [1, 2]⟩ .lr32 [1, 2] ∧ Reopen.storedPayloads ⟨some [], some [], some [1, 2]⟩ = []) := by
+  decide
+
+example : HoldsOnly ⟨some [], some [7, 8, 9], none⟩ .lr16 [7, 8, 9] ∧ Unshadowed ⟨some [], some [7, 8, 9], none⟩ .lr16 :=
+  ⟨by decide, trivial⟩
+example : HoldsOnly ⟨some [7], none, none⟩ .layerInfo [7] ∧ Unshadowed ⟨some [7], none, none⟩ .layerInfo := by
+  refine ⟨by decide, ?_, ?_⟩ <;> rfl
 
 /-! ### Non-vacuity: an empty group, a group ending the file, a nested artboard, malformed input -/
 
